@@ -322,6 +322,11 @@ def main(tier):
     Ns = [1, 2] if tier == 'quick' else [1, 2, 3, 4]
     items = []
     rng = random.Random(chk.seed + 11)
+    two = [[[a], [b]] for a, b in (('i', 'i'), ('i', 'g'), ('g', 'g'))]      # 2 threads x 1 operation: cheap, run for every capacity and prefix
+    for N in (Ns + [3] if tier == 'quick' else Ns):
+        for prefix in range(N + 1):
+            for th in two:
+                items.append(('shared', N, prefix, th, tier))
     for N in Ns:
         for prefix in range(N + 1):
             pats = patterns()
@@ -339,7 +344,7 @@ def main(tier):
     for N in ([1, 2, 3] if tier == 'quick' else [1, 2, 3, 4]):
         items.append(('seq-tls', N, 0, [], tier))
         items.append(('seq-shared', N, 0, [], tier))
-    chk.cov['bounds'] = {'capacity': Ns, 'threads': '3 threads x 1 operation (4 insert/fetch multisets) and 2 threads x (2+1) operations (8 patterns): at most 3 concurrent operations; quick tier: all 12 patterns x all prefixes for capacity 1, one seeded pattern for each prefix 0,1 for capacity 2; thorough: all for capacity 1,2 and the 3x1 patterns with prefix 0 and N for capacity 3,4',
+    chk.cov['bounds'] = {'capacity': Ns, 'threads': '2 threads x 1 operation (3 patterns, every capacity incl. 3 in the quick tier, every prefix), 3 threads x 1 operation (4 insert/fetch multisets) and 2 threads x (2+1) operations (8 patterns): at most 3 concurrent operations; quick tier: all 12 patterns x all prefixes for capacity 1, one seeded pattern for each prefix 0,1 for capacity 2; thorough: all for capacity 1,2 and the 3x1 patterns with prefix 0 and N for capacity 3,4',
                          'prefix': '0..capacity sequential inserts before the threads start', 'interleavings': 'all, at the granularity of the atomic loads/stores/compare-exchanges and plain shared accesses (CBMC partial-order encoding, sequential consistency)',
                          'unwinding': 'compare-exchange retry loops unwound (concurrent operations + 2) times with --unwinding-assertions', 'sequential': 'every operation sequence of length 2*capacity+2, both configurations'}
     chk.cov['domains'] = ['bit-precise integers (CBMC SAT back end)']
